@@ -196,7 +196,7 @@ LoadContainer(g) ==
                    ELSE IF key \in DOMAIN g.arrays THEN ReadArrayInContainer(g.arrays[key])
                    ELSE IF key \in DOMAIN g.groups THEN LoadGroup(g.groups[key], {}, {}, TRUE)
                    ELSE Mk("RAISE", "missing key")
-      idx == {i \in 0..8 : ToString(i) \in DOMAIN g.attrs \cup DOMAIN g.arrays \cup DOMAIN g.groups}
+      idx == {i \in 0..15 : ToString(i) \in DOMAIN g.attrs \cup DOMAIN g.arrays \cup DOMAIN g.groups}
       len == IF idx = {} THEN 0 ELSE (CHOOSE m \in idx : \A j \in idx : j <= m) + 1
       items == [i \in 1..len |-> Item(ToString(i - 1))]
       fast == "_sequence_encoding" \in DOMAIN g.attrs /\ "values" \in DOMAIN g.arrays
